@@ -118,9 +118,9 @@ theorem fire_all_skips_terminate (skip : Agenda → Act → Bool) (g : Agenda) (
 
 /-- **fire_all_bounded (ReteUlEngine).** For every rule set, conditions and actions: at most 100 passes, each
 firing every rule at most once. -/
-theorem fire_all_bounded_ul {σ : Type} (rules : List (URule σ)) (setFired : Nat → σ → σ) (s : σ) :
-    (ulLoop rules setFired ulBound s [] []).2.length ≤ 100 * rules.length := by
-  have := ulLoop_length rules setFired ulBound s [] []
+theorem fire_all_bounded_ul {σ : Type} (rules : List (URule σ)) (setFired : Nat → σ → σ) (isFired : Nat → σ → Bool) (s : σ) :
+    (ulLoop rules setFired isFired ulBound s [] []).2.length ≤ 100 * rules.length := by
+  have := ulLoop_length rules setFired isFired ulBound s [] []
   simpa [ulBound] using this
 
 /-- **fire_all_bounded (TypedReteUlEngine, with the guard of fix-C07).** Same bound.  The unchanged code has no
@@ -145,6 +145,18 @@ This is the predicate `histOk` the driver evaluates on the implementation's obse
 theorem no_loop_once_engine_history (rules : List CRule) (hops : List HOp) :
     histOk (isNoLoopOf rules) incBound [] 1 hops (({ rules := rules } : Inc).htrace hops) = true :=
   histOk_trace rules hops { rules := rules } [] ⟨rfl, by intro n hn; simp at hn, by intro a ha; simp at ha⟩
+
+/-- **no_loop_once_between_resets, per rule NAME, on the two map engines.**  One `TypedReteUlEngine` (`typed = true`) or
+`ReteUlEngine` (after fix-C07c) with ANY list of named rules — the same name may be registered any number of times, with any
+saliences — driven through ANY sequence of fire_all / reset_fired_flags / set_fact calls, `<name>_fired` markers set from outside
+or by a rule's action during a cycle included: walking through the names returned by the successive `fire_all` calls, a name all
+of whose registrations are no-loop never appears a second time unless `reset_fired_flags` came in between, and every call returns
+at most 100 · (number of registrations) names.  This is the predicate `mhistOk` the driver evaluates on the implementation's
+observations of the `M T` / `M U` cases. -/
+theorem no_loop_once_named_history (typed : Bool) (rules : List NRule) (a b : Int) (ops : List MOp) :
+    mhistOk (nameNoLoop rules) ((if typed then typedBound else ulBound) * rules.length) [] ops
+      (mtrace typed rules { a := a, b := b } ops) = true :=
+  mhistOk_trace typed rules ops { a := a, b := b } [] (by intro n hn; simp at hn)
 
 /-- **model_meets_spec.** Every history of the model satisfies the observation-level specification `runOk` (the
 predicate the driver evaluates on the implementation's observations): each pop obeys focus fall-back, membership,
@@ -186,5 +198,12 @@ def welcome : CRule := { prio := 10, noLoop := true, ck := false, limit := 10000
 def once : CRule := { prio := 0, noLoop := true, ck := false, limit := 2, ak := false, inc := 0 }
 example : (({ rules := [welcome, once] } : Inc).htrace [.insert 1 0, .fire, .update 1 0 5, .fire, .reset, .update 1 3 0, .fire]) =
     [.handle 1, .fired [0, 1], .ok true, .fired [], .unit, .ok true, .fired [0]] := by decide +kernel
+
+-- named rule sets: `N0` registered twice (salience 5 and 3, both no-loop, always true): one firing per call and reset, on both engines
+def dup0 : List NRule := [{ name := 0, prio := 5, noLoop := true, ck := false, limit := 1000000000, ak := false, inc := 1 },
+                          { name := 0, prio := 3, noLoop := true, ck := false, limit := 1000000000, ak := false, inc := 1 }]
+example : mtrace true dup0 { a := 0, b := 0 } [.fire, .fire, .reset, .fire] = [.fired [0] 1 0, .fired [] 1 0, .unit, .fired [0] 2 0] := by decide
+example : mtrace false dup0 { a := 0, b := 0 } [.fire, .fire, .reset, .fire] = [.fired [0] 1 0, .fired [] 1 0, .unit, .fired [0] 2 0] := by decide
+example : nameNoLoop dup0 0 = true := by decide
 
 end C07
